@@ -20,7 +20,7 @@ EXPLANATION = ("ContactGeometry::TriangleMesh of the real library on small close
                "every input point is inside the returned sphere.")
 BOUNDS = ("catalogue of 4 concrete convex meshes (4-12 faces); query point free along a line (quick: u) or in a plane (thorough: u,v) through "
           "pinned rational points/directions (2 quick / 6 thorough base points), competitor parameters s,t (and the ray parameter) free; regions "
-          "and tree branches reached by path flipping within 8-24 paths per instance; bounding spheres: the last point free along a line "
+          "and tree branches reached by path flipping within 4-16 (quick) / 24-48 (thorough) paths per instance; bounding spheres: the last point free along a line "
           "(quick) / plane (thorough), the others pinned; findNearestPointToFace: query point free in a plane parallel to the face (the "
           "routine's branch structure depends only on the in-plane coordinates, so every region and sub-branch is reachable), offset "
           "pinned; |u|,|v| <= 8 (hypothesis); the 4- and 6-point sphere routines are entered from 5 "
@@ -39,11 +39,14 @@ NFACES = {"tetra": 4, "obtuse": 4, "obtuse_r1": 4, "obtuse_r2": 4, "octa": 8, "b
 def instances(tier, seed):
     out = []
     for m in MESHES_Q:
-        out.append(dict(name="%s:nearest" % m, args=[m, "nearest"], paths=6 if tier == "quick" else 24, mesh=m, query="nearest", tier=tier))
+        out.append(dict(name="%s:nearest" % m, args=[m, "nearest"], paths=(6 if m in ("tetra", "obtuse") else 4) if tier == "quick" else 24, mesh=m, query="nearest", tier=tier))
     # the same query line entered far from the mesh (seed path in the sharp-vertex region of the obtuse tetrahedron)
     out.append(dict(name="obtuse:nearest@far", args=["obtuse", "nearest"], paths=4, mesh="obtuse", query="nearest", tier=tier, useed=5.0))
     for m in MESHES_Q:
-        out.append(dict(name="%s:ray" % m, args=[m, "ray"], paths=6 if tier == "quick" else 24, mesh=m, query="ray", tier=tier))
+        if tier == "quick" and m == "octa":
+            out.append(dict(name="%s:obb" % m, args=[m, "obb"], paths=1, mesh=m, query="obb", tier=tier, base_points=1))
+            continue
+        out.append(dict(name="%s:ray" % m, args=[m, "ray"], paths=4 if tier == "quick" else 24, mesh=m, query="ray", tier=tier))
         out.append(dict(name="%s:obb" % m, args=[m, "obb"], paths=1, mesh=m, query="obb", tier=tier, base_points=1))
     for n in (2, 3, 5):
         out.append(dict(name="pts%d:bsphere" % n, args=["pts", "bsphere", str(n)], paths=4 if tier == "quick" else 16, mesh="pts", query="bsphere",
@@ -52,7 +55,7 @@ def instances(tier, seed):
     # execution follows a rounding-only path whose recorded path condition is inconsistent over the reals (reported VACUOUS);
     # these instances therefore enter the branches from several generic seed positions of the moving point instead of by flips
     for n in ((4,) if tier == "quick" else (4, 6)):
-        for us in (-2.0625, -0.6875, 0.3125, 1.4375, 3.0625):
+        for us in ((-2.0625, 0.3125, 1.4375) if tier == "quick" else (-2.0625, -0.6875, 0.3125, 1.4375, 3.0625)):
             out.append(dict(name="pts%d:bsphere@%g" % (n, us), args=["pts", "bsphere", str(n)], paths=1, mesh="pts", query="bsphere",
                             tier=tier, npts=n, useed=us, base_points=1 if tier == "quick" else 3))
     # per-face routine: the obtuse tetrahedron in all three cyclic vertex orders (the routine's region logic is not symmetric in the
@@ -63,8 +66,10 @@ def instances(tier, seed):
         faces = (("obtuse", [0, 1, 2, 3]), ("obtuse_r1", [0, 1, 2, 3]), ("obtuse_r2", [0, 1, 2, 3]), ("tetra", [0]), ("box", [0, 5]))
     for m, ks in faces:
         for k in ks:
-            out.append(dict(name="%s:face%d" % (m, k), args=[m, "face", str(k)], paths=28 if tier == "quick" else 48, mesh=m, query="face",
-                            tier=tier, flips_per_path=12, base_points=1 if tier == "quick" else 3))
+            out.append(dict(name="%s:face%d" % (m, k), args=[m, "face", str(k)], paths=16 if tier == "quick" else 48, mesh=m, query="face",
+                            tier=tier, flips_per_path=10, base_points=1 if tier == "quick" else 3))
+    for i in out:
+        i.setdefault("twin_timeout_ms", 8000)
     return out
 
 
